@@ -21,10 +21,15 @@ class Clock:
         self.adv = 0
         self.n = 0
         self.log = []
+        self.frozen = False
+        self.last = BASE
 
     def time(self):
+        if self.frozen:
+            return self.last / 1e7
         self.n += 1
         r = BASE + self.adv + 2 * self.n
+        self.last = r
         self.log.append(r)
         return r / 1e7
 
@@ -142,38 +147,54 @@ class Impl:
         return out
 
     # -- snapshot ---------------------------------------------------------
-    def snapshot(self):
-        parts = []
-        now = None
+    def now_ticks(self):
+        return round(self.srv.dbs[0].time * 1e7)
+
+    def snapshot_struct(self):
+        """all stored entries (also the expired-but-not-yet-purged ones) with their deadlines in ticks"""
+        dbs = {}
         for i in sorted(self.srv.dbs.keys()):
             db = self.srv.dbs[i]
-            items = []
-            for k, it in db._dict.items():
-                if it.expireat is not None and it.expireat < db.time:
-                    continue
-                items.append('%s=%s@%s' % (k.hex(), dump_value(it.value),
-                                           '-' if it.expireat is None else str(round(it.expireat * 1e7))))
-            if items:
-                parts.append('db%d{%s}' % (i, ','.join(items)))
+            dbs[i] = [(k.hex(), dump_value(it.value), None if it.expireat is None else round(it.expireat * 1e7))
+                      for k, it in db._dict.items()]
+        tables = {}
         for name, tbl in (('subs', self.srv.subscribers), ('psubs', self.srv.psubscribers)):
-            ent = []
-            for ch, ws in tbl.items():
-                ids = sorted(c for c, s in self.socks.items() if s in ws)
-                ent.append('%s=%s' % (ch.hex(), '+'.join(map(str, ids))))
-            parts.append('%s{%s}' % (name, ','.join(ent)))
+            tables[name] = [(ch.hex(), sorted(c for c, s in self.socks.items() if s in ws)) for ch, ws in tbl.items()]
+        conns = {}
+        dbidx = {id(d): i for i, d in self.srv.dbs.items()}
         for c in sorted(self.socks):
             s = self.socks[c]
-            closed = c in self.closed
-            tx = '-' if s._transaction is None else str(len(s._transaction))
-            dbidx = {id(d): i for i, d in self.srv.dbs.items()}
-            ws = sorted({'%d/%s' % (dbidx[id(d)], k.hex()) for (k, d) in s._watches})
-            dead = s._parser.gi_frame is None
-            parts.append('c%d{db=%d,tx=%s,failed=%s,wn=%s,watch=%s,pubsub=%d,closed=%s,dead=%s,parked=-}' % (
-                c, s._db_num, tx, b(s._transaction_failed), b(s._watch_notified), '+'.join(ws), s._pubsub,
-                b(closed), b(dead)))
-        parts.append('lastsave=%d' % self.srv.lastsave)
-        parts.append('connected=%s' % b(self.srv.connected))
-        return 'S ' + ' '.join(parts)
+            conns[c] = dict(db=s._db_num, tx='-' if s._transaction is None else str(len(s._transaction)),
+                            failed=s._transaction_failed, wn=s._watch_notified,
+                            watch=sorted({'%d/%s' % (dbidx[id(d)], k.hex()) for (k, d) in s._watches}),
+                            pubsub=s._pubsub, closed=c in self.closed, dead=s._parser.gi_frame is None)
+        return dict(dbs=dbs, tables=tables, conns=conns, lastsave=self.srv.lastsave, connected=self.srv.connected,
+                    now=self.now_ticks())
+
+    def snapshot(self):
+        return render_snapshot(self.snapshot_struct())
+
+
+def live_view(st, now=None):
+    """per database the live entries at time `now` (default: the snapshot's own clock)"""
+    now = st['now'] if now is None else now
+    return {i: [e for e in ents if e[2] is None or e[2] >= now] for i, ents in st['dbs'].items()}
+
+
+def render_snapshot(st):
+    parts = []
+    lv = live_view(st)
+    for i in sorted(lv):
+        if lv[i]:
+            parts.append('db%d{%s}' % (i, ','.join('%s=%s@%s' % (k, v, '-' if e is None else str(e)) for k, v, e in lv[i])))
+    for name in ('subs', 'psubs'):
+        parts.append('%s{%s}' % (name, ','.join('%s=%s' % (ch, '+'.join(map(str, ids))) for ch, ids in st['tables'][name])))
+    for c, x in sorted(st['conns'].items()):
+        parts.append('c%d{db=%d,tx=%s,failed=%s,wn=%s,watch=%s,pubsub=%d,closed=%s,dead=%s,parked=-}' % (
+            c, x['db'], x['tx'], b(x['failed']), b(x['wn']), '+'.join(x['watch']), x['pubsub'], b(x['closed']), b(x['dead'])))
+    parts.append('lastsave=%d' % st['lastsave'])
+    parts.append('connected=%s' % b(st['connected']))
+    return 'S ' + ' '.join(parts)
 
 
 def b(x):
